@@ -38,11 +38,17 @@ type Prog struct {
 	Inlined     *InlineStats
 	// Anchors: every function a rule looked up by name during this run
 	Anchors map[*ssa.Function]bool
+	// Renamed: renames relative to the baseline that were undone in memory before analysing
+	Renamed []string
 }
 
 // Load loads ./... of dir. overlay maps absolute file names to replacement
 // contents (used only by the checker's self-tests).
 func Load(dir string, overlay map[string][]byte, goarch string) (*Prog, error) {
+	return load(dir, overlay, goarch, true)
+}
+
+func load(dir string, overlay map[string][]byte, goarch string, normaliseNames bool) (*Prog, error) {
 	env := append(os.Environ(), "GOFLAGS=-mod=mod", "GOPROXY=off", "GOSUMDB=off", "GOTOOLCHAIN=local", "GOWORK=off")
 	if goarch != "" {
 		env = append(env, "GOARCH="+goarch)
@@ -77,6 +83,26 @@ func Load(dir string, overlay map[string][]byte, goarch string) (*Prog, error) {
 		}
 		return nil, fmt.Errorf("type errors in module packages:\n  %s", strings.Join(errs, "\n  "))
 	}
+	var base *Baseline
+	var renamed []string
+	if BaselineFile != "" {
+		data, err := os.ReadFile(BaselineFile)
+		if err != nil {
+			return nil, fmt.Errorf("baseline function list: %v", err)
+		}
+		base = ParseBaseline(data)
+		if normaliseNames {
+			if ov, notes := undoRenames(pkgs, base, overlay); ov != nil {
+				p2, err := load(dir, ov, goarch, false)
+				if err == nil {
+					p2.Renamed = notes
+					return p2, nil
+				}
+				// the rewritten tree does not type-check (name clash): analyse the tree as it is
+			}
+		}
+	}
+	_ = renamed
 	prog, _ := ssautil.AllPackages(pkgs, ssa.InstantiateGenerics)
 	prog.Build()
 	p := &Prog{Dir: dir, Fset: pkgs[0].Fset, Pkgs: pkgs, SSA: prog, SPkgs: map[string]*ssa.Package{}, All: map[string]*packages.Package{}}
@@ -92,12 +118,11 @@ func Load(dir string, overlay map[string][]byte, goarch string) (*Prog, error) {
 			p.NumFuncs++
 		}
 	}
-	if BaselineFile != "" {
-		data, err := os.ReadFile(BaselineFile)
-		if err != nil {
-			return nil, fmt.Errorf("baseline function list: %v", err)
+	if base != nil {
+		known := map[string]bool{}
+		for k := range base.Funcs {
+			known[k] = true
 		}
-		known := LoadKnownFuncs(data)
 		if len(known) < 500 {
 			return nil, fmt.Errorf("baseline function list %s has only %d entries", BaselineFile, len(known))
 		}
